@@ -142,11 +142,16 @@ func intervalOverlaps(lims []*limit) []overlap {
 			if l.typ == start {
 				endLeaf = endLeaf.Prev()
 			}
-			overlaps = append(overlaps, overlap{
-				indices: openIndices(),
-				start:   lastStart,
-				end:     endLeaf,
-			})
+			// When one value ends at leaf p and another starts at leaf p+1
+			// while others remain open, the region since the last limit is
+			// empty ([p+1, p]); it is not an intersection of anything.
+			if lastStart <= endLeaf {
+				overlaps = append(overlaps, overlap{
+					indices: openIndices(),
+					start:   lastStart,
+					end:     endLeaf,
+				})
+			}
 		}
 
 		switch l.typ {
